@@ -92,12 +92,15 @@ class FakeContent:
             if s.error is not None:
                 err, s.error = s.error, None
                 s.open = False
+                s.closed_at = s.closed_at if s.closed_at is not None else getattr(s, 'clock', lambda: 0.0)()
                 raise err
             if s.eof:
                 s.open = False
+                s.closed_at = s.closed_at if s.closed_at is not None else getattr(s, 'clock', lambda: 0.0)()
                 return
             if r._closed:
                 s.open = False
+                s.closed_at = s.closed_at if s.closed_at is not None else getattr(s, 'clock', lambda: 0.0)()
                 raise aiohttp.ClientConnectionError("Connection closed")
             s.waiter = asyncio.get_running_loop().create_future()
             try:
@@ -180,6 +183,8 @@ class FakeResponse(aiohttp.ClientResponse):
         s = self._stream
         if s is not None:
             s.client_closed = True
+            if s.closed_at is None:
+                s.closed_at = s.clock()  # type: ignore[attr-defined]
             if s.waiter is not None and not s.waiter.done():
                 s.waiter.set_exception(aiohttp.ClientConnectionError("Connection closed"))
             else:
@@ -212,6 +217,8 @@ class Stream:
     error: BaseException | None = None
     open: bool = True
     client_closed: bool = False
+    opened_at: float = 0.0
+    closed_at: float | None = None
     delivered: list = dataclasses.field(default_factory=list)  # (rv, type, name) put on the wire
 
 
@@ -274,6 +281,7 @@ class World:
         self.pending: list[Request] = []
         self.requests: list[Request] = []       # all non-auto requests ever issued (the log)
         self.auto_requests = 0
+        self.auto_log: list[tuple[float, str, str, str | None]] = []
         self.streams: list[Stream] = []
         self.writes: list[dict] = []            # every mutation of any object, with its actor
         self.frozen = False
@@ -548,7 +556,8 @@ class World:
         while pos < len(log) and log[pos][0] <= since:
             pos += 1
         s = Stream(sid=self._sid, opid=req.opid, origin=req.origin, kind=kind, namespace=ns,
-                   label=req.label, pos=pos, last_rv=since)
+                   label=req.label, pos=pos, last_rv=since, opened_at=self.clock())
+        s.clock = self.clock  # type: ignore[attr-defined]
         if since < self.compacted[kind.key]:
             s.inject.append({'type': 'ERROR', 'object': status_body(410, f'too old resource version: {since}')})
             s.inject.append(EOF)
@@ -646,6 +655,8 @@ class World:
         for s in self.streams:
             if s.opid == opid:
                 s.open = False
+                if s.closed_at is None:
+                    s.closed_at = self.clock()
 
     # ---- streams -------------------------------------------------------------------------------
     def stream_next(self, s: Stream) -> Any:
@@ -779,6 +790,7 @@ class FakeSession:
             return FakeResponse(status=401, headers={}, body=status_body(401), url=url, method=method)
         if w.auto(req):
             w.auto_requests += 1
+            w.auto_log.append((w.clock(), req.origin, req.path, req.opid))
             w.apply(req)
             req.state = 'done'
             req.t_responded = w.clock()
